@@ -573,7 +573,8 @@ def h_kernel(X, k):
         except dnsref.RefError as e:
             X.fail("C25/kernel/accepts-malformed", f"mitmproxy decoded a name where the reference reader fails: {e}")
         X.check(consumed == end - start, "C25/kernel/consumed", f"consumed {consumed} octets, reference {end - start}")
-        X.check(len(name.split(".")) >= len(labels) if labels else name == "", "C25/kernel/labels", f"{name!r} vs {len(labels)} reference labels")
+        # exactly the labels of the name: a pointer that leads to the root adds no (empty) label -- "b." would not re-encode
+        X.check(len(name.split(".")) == len(labels) if labels else name == "", "C25/kernel/labels", f"{name!r} vs {len(labels)} reference labels")
 
 
 def h_kernel_loop(X, k):
